@@ -44,6 +44,11 @@ type Cfg struct {
 	OwnKeys    bool     `json:"own_keys"`    // instance i writes only Keys[i]
 	Prefix     []string `json:"prefix"`      // scripted events applied before the search starts
 	NoDelete   bool     `json:"no_delete"`
+	// Outage: event O<i> = the sync loop's upload attempt of a dirty instance while every Store call fails (at most
+	// once per history). LoopRule: the closure uploads like the sync loop does (only instances whose LMDB changed
+	// since the last transaction the loop considers synced), instead of forcing an upload from everybody.
+	Outage   bool `json:"outage"`
+	LoopRule bool `json:"loop_rule"`
 }
 
 const base = uint64(1_000_000_000_000_000_000) // logical epoch, far from 0/1 special values
@@ -57,6 +62,7 @@ type Fleet struct {
 	Clock      uint64
 	ClockUser  int // instance that last used the current clock value, -1 none
 	NSends     []int
+	outages    int
 	// Written records every version the applications wrote (native mode), per "dbi/key".
 	Written map[string][]world.Ver
 	// AppVals records values the applications wrote / deleted (shadow mode), per "dbi/key".
@@ -234,6 +240,13 @@ func (f *Fleet) Enabled() []string {
 			evs = append(evs, fmt.Sprintf("S%d%s", i, m))
 		}
 	}
+	if f.Cfg.Outage && f.outages == 0 {
+		for i := 0; i < f.Cfg.N; i++ {
+			if last := f.I[i].Env.LastTxnID(); last > 0 && header.TxnID(last) > f.LastSynced[i] {
+				evs = append(evs, fmt.Sprintf("O%d", i))
+			}
+		}
+	}
 	blobs := f.Blobs()
 	for i := 0; i < f.Cfg.N; i++ {
 		if f.Cfg.Silent == i && f.NSends[i] >= 1 {
@@ -349,6 +362,24 @@ func (f *Fleet) Apply(ev string) error {
 		}
 		f.LastSynced[i] = id
 		f.NSends[i]++
+	case 'O': // upload attempt during a storage outage: every Store call fails
+		i, _ := strconv.Atoi(rest)
+		f.tick(i, "+")
+		f.outages++
+		f.B.Hook = func(op, name string) error {
+			if op == "store" {
+				return fmt.Errorf("injected storage outage")
+			}
+			return nil
+		}
+		verifhook.SetSleep(func(context.Context, time.Duration) (bool, error) { return true, nil }) // retry sleeps take no time
+		id, err := f.I[i].Send()
+		verifhook.SetSleep(nil)
+		f.B.Hook = nil
+		if err == nil {
+			// the loop takes the change for uploaded (an error would end Sync; the restarted loop starts over)
+			f.LastSynced[i] = id
+		}
 	case 'L':
 		parts := strings.Split(rest, ":")
 		i, _ := strconv.Atoi(parts[0])
@@ -563,7 +594,7 @@ func (f *Fleet) Canon() string {
 	for _, b := range blobs {
 		fmt.Fprintf(&sb, "B{%s@%d:%s}", b.inst, rank[b.ts], rlc(b.lc))
 	}
-	fmt.Fprintf(&sb, "clk:%d user:%d", rank[f.Clock], f.ClockUser)
+	fmt.Fprintf(&sb, "clk:%d user:%d out:%d", rank[f.Clock], f.ClockUser, f.outages)
 	if f.Cfg.Cleaner {
 		// the cleaner's first-seen bookkeeping and committed map are hidden state: keep the history tail that touches them
 		for i := range f.I {
@@ -656,6 +687,9 @@ func (f *Fleet) Closure(maxRounds int) (int, error) {
 		for i := range f.I {
 			if f.I[i].Env.LastTxnID() == 0 {
 				continue
+			}
+			if f.Cfg.LoopRule && header.TxnID(f.I[i].Env.LastTxnID()) <= f.LastSynced[i] {
+				continue // the loop sees nothing to upload
 			}
 			if err := f.Apply(fmt.Sprintf("S%d+", i)); err != nil {
 				return round, err
